@@ -440,7 +440,13 @@ impl<'a> IntoIterator for &'a Label {
 impl fmt::Display for Label {
     fn fmt(&self, f: &mut fmt::Formatter<'_>) -> fmt::Result {
         for ch in self.iter() {
-            if ch == b' ' || ch == b'.' || ch == b'\\' {
+            // Besides the dot and the backslash, everything that has a
+            // special meaning in a zone file needs escaping, too, or the
+            // name cannot be read back.
+            if matches!(
+                ch,
+                b' ' | b'.' | b'\\' | b'"' | b';' | b'(' | b')' | b'@' | b'$'
+            ) {
                 write!(f, "\\{}", ch as char)?;
             } else if !(0x20..0x7F).contains(&ch) {
                 write!(f, "\\{:03}", ch)?;
